@@ -392,10 +392,16 @@ impl Check for C01 {
                             }
                         }
                         Ev::Disk { op: DiskOp::Write, ok: false, .. } => vd.probe("disk_write_failed"),
-                        Ev::Disk { op: DiskOp::Open, path, ok: true, .. } if path.ends_with(".piece") => {
+                        // the extractor touches a piece (successfully or not) that is not stored
+                        Ev::Disk { op: DiskOp::Open, path, .. } if path.ends_with(".piece") => {
                             if let Some(i) = (0..t.pieces()).find(|i| name_of(*i) == *path) {
                                 if !ver.set.contains(&i) {
-                                    vd.fail("C01", "C01.extract-unverified", format!("extractor read {} which holds no verified data", path), seq);
+                                    vd.fail(
+                                        "C01",
+                                        "C01.extract-unverified",
+                                        format!("output files are being assembled from piece {} ({}) although no verified copy of it is stored", i, path),
+                                        seq,
+                                    );
                                 }
                             }
                         }
